@@ -45,8 +45,11 @@ extern "C"
     void vs_set_step_hook(vs_step_hook_fn fn);
     void vs_activate(int on); // wrappers are pass-through (single-threaded set-up) while inactive
     int vs_spawn(const char* name, void (*fn)(void*), void* arg);
-    void vs_name_next(const char* name); // name given to the next thread created through thread_create
+    void vs_name_next(const char* name); // queue a name for the next thread created through thread_create (FIFO, <= 16)
+    typedef void (*vs_thread_hook_fn)(int t, const char* name, int is_exit);
+    void vs_set_thread_hook(vs_thread_hook_fn fn); // called when a thread function starts / has returned
     void vs_yield(const char* at);
+    void vs_yield_low(const char* at); // yield of a polling loop: gives way to every other thread under PCT
     void vs_wait(void* obj, const char* at);   // block until vs_signal(obj)
     void vs_signal(void* obj);
     void vs_join_all(void); // main thread: run the others until all are done
